@@ -139,7 +139,7 @@ CLAIMED["C10"] = dict(
           "with the caller's incoming metadata as outgoing metadata whenever there is any, passes the first request message on as received, returns a backend failure as it is (the error value that carries code, message and details), "
           "passes the backend's trailer on after a clean end, and its client pump calls CloseSend on the backend stream when the client's stream ends (io.EOF); isStreamError treats exactly nil, io.EOF and context.Canceled as non-failures; "
           "the unary proxy invokes the backend for the method's own name with the caller's metadata, the request and reply objects handed in and out, and passes an error on. "
-          "One known finding: a client stream that ends before its first message is answered with EOF instead of reaching the backend."),
+          "A client stream that ends before its first message opens the backend stream and half-closes it at once (repaired; it was answered with EOF before)."),
     note=TRUST + "Thin clauses on the closures of createConnHandler, written from the property statement after a probe showed a hung client-streaming call (fixed). Not decided: the observational equivalence itself, the interleavings of the two pumps and which side fails first (goroutines are abstracted by the generator: each closure is verified as a sequential function, its captured variables as heap cells), grpc-go's streams, response header metadata, message contents (dynamicpb round trip).",
     ref="DESIGN.md sections 5 C10 and 10.3")
 
